@@ -16,10 +16,20 @@ variable {α : Type} [Inhabited α]
 abbrev Pos := Proofs.Pos
 abbrev Equiv {β : Type} [Inhabited β] := @Proofs.Equiv β _
 
+-- concrete arithmetic and tensors shared by the non-vacuity examples below
+private def nv_A : Arith Int := ⟨0, (· + ·), (· * ·), (· - ·)⟩
+private def nv_a : Tensor Int := ⟨[2, 2, 3], [1, 2, 3, 4, 5, 6, 7, 8, 9, 10, 11, 12]⟩
+private def nv_b : Tensor Int := ⟨[3, 2], [1, 0, 0, 1, 1, 1]⟩
+private def nv_m : Tensor Int := ⟨[2, 3], [1, 2, 3, 4, 5, 6]⟩
+private def nv_c : Tensor Int := ⟨[2], [100, 200]⟩
+
 /-- the odometer of `batchedMatMul` visits every batch index exactly once, in row-major order, and
 stops: the loop terminates after ∏ shape iterations -/
 theorem odometer_enumerates (shape : List Nat) (hpos : Pos shape) : odometer shape = allIdx shape :=
   Proofs.MatMul.odometer_enumerates shape hpos
+
+-- non-vacuity: a 2×3 batch index space
+example : odometer [2, 3] = allIdx [2, 3] := odometer_enumerates [2, 3] (by simp [Proofs.Pos])
 
 /-- the guard the code forces on the vector / batched path: no operand matrix with a single element -/
 def NoOneByOne (a b : Tensor α) : Prop :=
@@ -34,12 +44,25 @@ theorem matmul_partial (A : Arith α) (a b : Tensor α) (hWa : a.WF) (hWb : b.WF
     (s : Tensor α) (hs : Spec.matmul A a b = some s) :
     ∃ m, matmulOp A a b = .ok m ∧ Equiv m s := Proofs.MatMul.matmul_partial A a b hWa hWb hpa hpb hg s hs
 
+-- non-vacuity: a batch of two 2×3 matrices times a 3×2 matrix (batched path, B broadcast over the batch) …
+example : ∃ m, matmulOp nv_A nv_a nv_b = .ok m ∧ Equiv m ⟨[2, 2, 2], [4, 5, 10, 11, 16, 17, 22, 23]⟩ :=
+  matmul_partial nv_A nv_a nv_b rfl rfl (by simp [Proofs.Pos, nv_a]) (by simp [Proofs.Pos, nv_b])
+    (by unfold NoOneByOne; decide) _ (by decide)
+-- … and a 2×3 matrix times a vector of 3 (promotion path)
+example : ∃ m, matmulOp nv_A nv_m ⟨[3], [1, 1, 1]⟩ = .ok m ∧ Equiv m ⟨[2], [6, 15]⟩ :=
+  matmul_partial nv_A nv_m ⟨[3], [1, 1, 1]⟩ rfl rfl (by simp [Proofs.Pos, nv_m]) (by simp [Proofs.Pos])
+    (by unfold NoOneByOne; decide) _ (by decide)
+
 -- `ha`, `hb` are part of the fixed statement; a rank-0 operand is refused as well (`.unmodelled`)
 set_option linter.unusedVariables false in
 /-- a shape-invalid request never yields a tensor -/
 theorem matmul_refuses (A : Arith α) (a b : Tensor α) (hpa : Pos a.shape) (hpb : Pos b.shape)
     (ha : a.shape ≠ []) (hb : b.shape ≠ []) (hs : Spec.matmul A a b = none) :
     ∀ m, matmulOp A a b ≠ .ok m := Proofs.MatMul.matmul_refuses A a b hpa hpb hs
+
+-- non-vacuity: 2×3 times a batch of 2×3 (inner extents 3 and 2)
+example : ∀ m, matmulOp nv_A nv_m nv_a ≠ .ok m :=
+  matmul_refuses nv_A nv_m nv_a (by simp [Proofs.Pos, nv_m]) (by simp [Proofs.Pos, nv_a]) (by decide) (by decide) (by decide)
 
 /-- the unguarded statement is false: a 1-element operand on the batched path is refused (known
 finding matmul.batched_1x1) -/
@@ -56,11 +79,25 @@ theorem gemm_eq_spec (A : Arith α) (alpha beta : α) (tA tB : Bool) (a b : Tens
     ∃ m, gemmOp A alpha beta tA tB a b c = .ok m ∧ Equiv m s :=
   Proofs.MatMul.gemm_eq_spec A alpha beta tA tB a b c hWa hWb hWc hpa hpb hpc s hs
 
+-- non-vacuity: 2×3 · 3×2 with a bias row of 2 broadcast over the rows, alpha = 2, beta = 3 …
+example : ∃ m, gemmOp nv_A 2 3 false false nv_m nv_b (some nv_c) = .ok m ∧ Equiv m ⟨[2, 2], [308, 610, 320, 622]⟩ :=
+  gemm_eq_spec nv_A 2 3 false false nv_m nv_b (some nv_c) rfl rfl (by intro t h; cases h; rfl)
+    (by simp [Proofs.Pos, nv_m]) (by simp [Proofs.Pos, nv_b]) (by intro t h; cases h; simp [Proofs.Pos, nv_c]) _ (by decide)
+-- … and with both operands transposed
+example : ∃ m, gemmOp nv_A 2 3 true true nv_b nv_m (some nv_c) = .ok m ∧ Equiv m ⟨[2, 2], [308, 620, 310, 622]⟩ :=
+  gemm_eq_spec nv_A 2 3 true true nv_b nv_m (some nv_c) rfl rfl (by intro t h; cases h; rfl)
+    (by simp [Proofs.Pos, nv_b]) (by simp [Proofs.Pos, nv_m]) (by intro t h; cases h; simp [Proofs.Pos, nv_c]) _ (by decide)
+
 theorem gemm_refuses (A : Arith α) (alpha beta : α) (tA tB : Bool) (a b : Tensor α) (c : Option (Tensor α))
     (hpa : Pos a.shape) (hpb : Pos b.shape) (hpc : ∀ t, c = some t → Pos t.shape)
     (hs : Spec.gemm A alpha beta tA tB a b c = none) :
     ∀ m, gemmOp A alpha beta tA tB a b c ≠ .ok m :=
   Proofs.MatMul.gemm_refuses A alpha beta tA tB a b c hpa hpb hpc hs
+
+-- non-vacuity: a 2×3 C cannot be broadcast to the 2×2 product
+example : ∀ m, gemmOp nv_A 2 3 false false nv_m nv_b (some nv_m) ≠ .ok m :=
+  gemm_refuses nv_A 2 3 false false nv_m nv_b (some nv_m)
+    (by simp [Proofs.Pos, nv_m]) (by simp [Proofs.Pos, nv_b]) (by intro t h; cases h; simp [Proofs.Pos, nv_m]) (by decide)
 
 /-- **LinearRegressor**: `Y[n,t] = Σ_f X[n,f]·coef[t·F+f] + intercepts[t]` -/
 theorem linreg_eq_spec (A : Arith α) (coef icpt : List α) (targets : Nat) (x : Tensor α)
@@ -68,10 +105,18 @@ theorem linreg_eq_spec (A : Arith α) (coef icpt : List α) (targets : Nat) (x :
     ∃ m, linregOp A coef icpt targets x = .ok m ∧ Equiv m s :=
   Proofs.MatMul.linreg_eq_spec A coef icpt targets x hW hp s hs
 
+-- non-vacuity: 2 samples, 3 features, 2 targets
+example : ∃ m, linregOp nv_A [1, 0, 0, 1, 1, 1] [10, 20] 2 nv_m = .ok m ∧ Equiv m ⟨[2, 2], [11, 26, 14, 35]⟩ :=
+  linreg_eq_spec nv_A [1, 0, 0, 1, 1, 1] [10, 20] 2 nv_m rfl (by simp [Proofs.Pos, nv_m]) _ (by decide)
+
 /-- **Scaler**: `(X - offset) * scale` per feature -/
 theorem scaler_eq_spec (A : Arith α) (off sc : List α) (x : Tensor α)
     (hW : x.WF) (hp : Pos x.shape) (s : Tensor α) (hs : Spec.scaler A off sc x = some s) :
     ∃ m, scalerOp A off sc x = .ok m ∧ Equiv m s := Proofs.MatMul.scaler_eq_spec A off sc x hW hp s hs
+
+-- non-vacuity: per-feature offsets, a single scale
+example : ∃ m, scalerOp nv_A [1, 2, 3] [10] nv_m = .ok m ∧ Equiv m ⟨[2, 3], [0, 0, 0, 30, 30, 30]⟩ :=
+  scaler_eq_spec nv_A [1, 2, 3] [10] nv_m rfl (by simp [Proofs.Pos, nv_m]) _ (by decide)
 
 -- non-vacuity
 example : (Spec.matmul (⟨0, (· + ·), (· * ·), (· - ·)⟩ : Arith Int) ⟨[2, 1, 2], [1, 2, 3, 4]⟩ ⟨[2], [5, 6]⟩).map (fun t => (t.shape, t.data)) = some ([2, 1], [17, 39]) ∧
